@@ -16,4 +16,7 @@ CONSTANTS
   RecordHist = TRUE
   Canon = TRUE
   Coarse = FALSE
+  MutPrecedence = FALSE
+  MutNoCatch = FALSE
+  KilledMayRaise = TRUE
 INVARIANTS TypeOK PassOnlyIfClean VerdictModuloKnown OrderIndependenceModuloKnown ExitNonZeroIffNotAllPass ValidNeverAbstract OneOutputPerQuery
